@@ -40,7 +40,7 @@ def run(ctx):
             gen(ctx, "box", 0, 2),
             gen(ctx, "fbox", 0, 0),
             gen(ctx, "sim", 4, 3, simulate=4000 if q else 150000),
-            gen(ctx, "biglist", 6, 0, simulate=1500 if q else 40000)]
+            gen(ctx, "biglist", 6, 0, simulate=1500 if q else 8000)]
     if not q:
         fams.append(gen(ctx, "box", 0, 3))
     summ = ctx.vh_json("fontquery", *fams, timeout=2400)
